@@ -18,6 +18,7 @@ implementation's own hash on every run).
 import datetime
 import decimal
 import itertools
+import re
 import json
 import os
 import warnings
@@ -49,10 +50,11 @@ def model_is_pinned():
     harness bug; otherwise the model follows a changed source and the difference is a correspondence finding."""
     global _PINNED_MODEL
     if _PINNED_MODEL is None:
-        from ..extractors import c15_expr
+        from ..extractors import c15_expr, c15_table, c15_time
 
         g = json.load(open(os.path.join(hcore.LEAN, "OrsoVerif", "Generated", "generated.json")))
-        want = c15_expr.pinned_json()
+        want = dict(c15_expr.pinned_json(), **c15_time.pinned_json())
+        want.update(c15_table.pinned_json())
         _PINNED_MODEL = all(g.get(k) == v for k, v in want.items())
     return _PINNED_MODEL
 
@@ -75,49 +77,119 @@ def consts():
 # --------------------------------------------------------------------------- case -> python values
 
 
+DATE_MIN, DATE_MAX = -719162, 2932896  # 0001-01-01 .. 9999-12-31 as days since 1970-01-01
+TS_MIN, TS_MAX = -62135596800, 253402300799  # 0001-01-01T00:00:00 .. 9999-12-31T23:59:59 as epoch seconds
+NS_MIN_S, NS_MAX_S = -9223372036, 9223372035  # whole seconds every sub-second instant of which fits 64-bit nanoseconds
+EDGE = 2 * 86400  # tz-aware cells keep this far from year 1 / 9999 (their local fields must stay inside)
+
+# how a temporal cell is stored in the frame; "mixed" / "mixed_p" = a different form per row (MIXED order, by row
+# number): "mixed" starts with a plain Python object, "mixed_p" with a pandas Timestamp (DateProfiler picks its
+# path by the first cell)
 FORMS = {
-    "TIMESTAMP": ["naive", "aware", "numpy", "pandas", "pandas_tz"],
-    "DATE": ["date", "numpy", "pandas"],
+    "TIMESTAMP": ["naive", "aware", "numpy", "numpy_ms", "numpy_us", "numpy_ns", "pandas", "pandas_us", "pandas_ns",
+                  "pandas_tz", "mixed", "mixed_p", "aware_lmt"],
+    "DATE": ["date", "numpy", "numpy_h", "numpy_s", "pandas", "datetime", "mixed", "mixed_p"],
 }
-PANDAS_RANGE = 9 * 10**9  # |epoch seconds| a pandas Timestamp (int64 nanoseconds) can hold
+# "aware_lmt": tz-aware datetimes whose UTC offset has a seconds part (local mean times: Paris +0:09:21 before
+# 1911, New York -4:56:02 before 1883).  numpy drops the seconds of the offset (open finding K07), so the form has
+# its own stream and is not drawn at random.
+RANDOM_FORMS = {k: [f for f in v if f != "aware_lmt"] for k, v in FORMS.items()}
+LMT_OFFSETS = (561, -17762)
 
 
-def pyvalue(kind, v, form=None):
-    """The Python object stored in the frame for JSON cell v of a column of `kind` (temporal kinds: in the
-    cell form asked for — datetime / tz-aware datetime / numpy.datetime64 / pandas.Timestamp)."""
+def lmt_offset(sec):
+    """The UTC offset (seconds) an "aware_lmt" cell of `sec` epoch seconds is given, None near the ends of the range."""
+    if not (TS_MIN + EDGE <= sec <= TS_MAX - EDGE):
+        return None
+    return LMT_OFFSETS[sec % 2]
+MIXED = {
+    "TIMESTAMP": {"mixed": ["naive", "pandas", "numpy_us", "aware", "pandas_ns", "numpy", "pandas_tz", "numpy_ms", "pandas_us", "numpy_ns"],
+                  "mixed_p": ["pandas", "naive", "pandas_us", "numpy", "aware", "pandas_ns", "numpy_ns", "pandas_tz", "numpy_ms", "numpy_us"]},
+    "DATE": {"mixed": ["date", "pandas", "numpy", "datetime", "numpy_h", "numpy_s"],
+             "mixed_p": ["pandas", "date", "numpy_s", "datetime", "numpy", "numpy_h"]},
+}
+# Arrow column types a temporal column can arrive through (DataFrame.from_arrow); date64 is typed TIMESTAMP by orso
+ARROW = {
+    "DATE": ["date32"],
+    "TIMESTAMP": ["date64", "timestamp[s]", "timestamp[ms]", "timestamp[us]", "timestamp[ns]", "timestamp[s,UTC]",
+                  "timestamp[us,UTC]", "timestamp[ms,+05:30]", "timestamp[ns,UTC]"],
+}
+
+
+def ts_parts(v):
+    """(whole epoch seconds, microseconds 0..999999) of a TIMESTAMP cell: an int, or [seconds, microseconds]."""
+    return (v[0], v[1]) if isinstance(v, list) else (v, 0)
+
+
+def _form_at(kind, form, i):
+    if form in ("mixed", "mixed_p"):
+        order = MIXED[kind][form]
+        return order[i % len(order)]
+    return form
+
+
+def pyvalue(kind, v, form=None, i=0):
+    """The Python object stored in the frame for JSON cell v (row i) of a column of `kind` (temporal kinds: in the
+    cell form asked for — date / datetime / tz-aware datetime / numpy.datetime64 of a unit / pandas.Timestamp of a
+    unit; a form that cannot hold the value (64-bit nanoseconds outside 1677..2262, a local time outside year
+    1..9999) falls back to the next coarser one for that cell)."""
     if v is None:
         return None
     if kind == "DECIMAL":
         return decimal.Decimal(v)
     if kind == "DATE":
-        if form == "numpy":
+        form = _form_at(kind, form, i)
+        if form in ("numpy", "numpy_h", "numpy_s"):
             import numpy
 
-            return numpy.datetime64(v, "D")
+            unit, mul = {"numpy": ("D", 1), "numpy_h": ("h", 24), "numpy_s": ("s", 86400)}[form]
+            return numpy.datetime64(v * mul, unit)
         if form == "pandas":
             import pandas
 
             return pandas.Timestamp(v * 86400, unit="s")
+        if form == "datetime":
+            return EPOCH + datetime.timedelta(days=v)
         return (EPOCH + datetime.timedelta(days=v)).date()
     if kind == "TIMESTAMP":
+        form = _form_at(kind, form, i)
+        sec, us = ts_parts(v)
+        inner = TS_MIN + EDGE <= sec <= TS_MAX - EDGE
+        if form in ("numpy_ns", "pandas_ns") and not (NS_MIN_S <= sec <= NS_MAX_S):
+            form = form[:-2] + "us"
+        if form in ("aware", "aware_lmt") and not inner:
+            form = "naive"
+        if form == "aware_lmt":
+            tz = datetime.timezone(datetime.timedelta(seconds=lmt_offset(sec)))
+            return (EPOCH.replace(tzinfo=datetime.timezone.utc) + datetime.timedelta(seconds=sec, microseconds=us)).astimezone(tz)
+        if form == "pandas_tz" and not inner:
+            form = "pandas_us"
         if form == "aware":
-            tz = datetime.timezone(datetime.timedelta(hours=(v % 7) - 3, minutes=30 * (v % 2)))
-            return (EPOCH.replace(tzinfo=datetime.timezone.utc) + datetime.timedelta(seconds=v)).astimezone(tz)
-        if form == "numpy":
+            tz = datetime.timezone(datetime.timedelta(hours=(sec % 7) - 3, minutes=30 * (sec % 2)))
+            return (EPOCH.replace(tzinfo=datetime.timezone.utc) + datetime.timedelta(seconds=sec, microseconds=us)).astimezone(tz)
+        if form in ("numpy", "numpy_ms", "numpy_us", "numpy_ns"):
             import numpy
 
-            return numpy.datetime64(v, "s")
-        if form == "pandas":
+            if form == "numpy":
+                return numpy.datetime64(sec, "s")
+            if form == "numpy_ms":
+                return numpy.datetime64(sec * 1000 + us // 1000, "ms")
+            if form == "numpy_us":
+                return numpy.datetime64(sec * 10**6 + us, "us")
+            return numpy.datetime64((sec * 10**6 + us) * 1000, "ns")
+        if form in ("pandas", "pandas_us", "pandas_ns", "pandas_tz"):
             import pandas
 
-            return pandas.Timestamp(v, unit="s")
-        if form == "pandas_tz":
-            import pandas
-
+            if form == "pandas":
+                return pandas.Timestamp(sec, unit="s")
+            if form == "pandas_us":
+                return pandas.Timestamp(sec * 10**6 + us, unit="us")
+            if form == "pandas_ns":
+                return pandas.Timestamp((sec * 10**6 + us) * 1000)
             # fixed whole-minute offsets: numpy drops the seconds of a UTC offset (historical local mean times)
-            tz = datetime.timezone(datetime.timedelta(hours=5, minutes=30) if v % 2 else datetime.timedelta(hours=-4))
-            return pandas.Timestamp(v, unit="s", tz="UTC").tz_convert(tz)
-        return EPOCH + datetime.timedelta(seconds=v)
+            tz = datetime.timezone(datetime.timedelta(hours=5, minutes=30) if sec % 2 else datetime.timedelta(hours=-4))
+            return pandas.Timestamp(sec * 10**6 + us, unit="us", tz="UTC").tz_convert(tz)
+        return EPOCH + datetime.timedelta(seconds=sec, microseconds=us)
     if kind == "ARRAY":
         return list(v)
     return v
@@ -140,7 +212,7 @@ def exact(kind, v):
     if kind == "DATE":
         return v * 86400
     if kind == "TIMESTAMP":
-        return v
+        return ts_parts(v)[0]  # whole seconds elapsed: the sub-second part is floored away (also before 1970)
     if kind == "VARCHAR":
         return v[: consts()["prefix"]]
     return None
@@ -191,9 +263,12 @@ def valid_cell(kind, v):
     if kind == "BOOLEAN":
         return isinstance(v, bool)
     if kind == "DATE":
-        return isinstance(v, int) and not isinstance(v, bool) and -700000 <= v <= 2900000
+        return isinstance(v, int) and not isinstance(v, bool) and DATE_MIN <= v <= DATE_MAX
     if kind == "TIMESTAMP":
-        return isinstance(v, int) and not isinstance(v, bool) and -60000000000 <= v <= 250000000000
+        if isinstance(v, list):
+            return (len(v) == 2 and all(isinstance(x, int) and not isinstance(x, bool) for x in v)
+                    and TS_MIN <= v[0] <= TS_MAX and 1 <= v[1] <= 999999)
+        return isinstance(v, int) and not isinstance(v, bool) and TS_MIN <= v <= TS_MAX
     if kind == "ARRAY":
         return isinstance(v, list)
     if kind == "STRUCT":
@@ -225,18 +300,25 @@ def valid_case(c):
             if not all(valid_cell(k, v) for k, v in zip(kinds, r)):
                 return False
         if "cells" in c:
-            if not isinstance(c["cells"], list) or len(c["cells"]) != len(kinds):
+            if not isinstance(c["cells"], list) or len(c["cells"]) != len(kinds) or "arrow" in c:
                 return False
             for j, (k, f) in enumerate(zip(kinds, c["cells"])):
                 if f is None:
                     continue
                 if f not in FORMS.get(k, []):
                     return False
-                if f.startswith("pandas"):
-                    scale = 86400 if k == "DATE" else 1
-                    if any(r[j] is not None and abs(r[j] * scale) > PANDAS_RANGE for r in rows):
-                        return False
+        if "arrow" in c:
+            # the frame arrives through DataFrame.from_arrow: temporal columns only, one Arrow type per column
+            if not isinstance(c["arrow"], list) or len(c["arrow"]) != len(kinds) or "appends" in c or "other" in c:
+                return False
+            for j, (k, t) in enumerate(zip(kinds, c["arrow"])):
+                if t not in ARROW.get(k, []):
+                    return False
+                if not all(arrow_holds(t, r[j]) for r in rows):
+                    return False
         if "lazy" in c and not isinstance(c["lazy"], bool):
+            return False
+        if "entry" in c and (c["entry"] not in ENTRIES or "appends" in c):
             return False
         if "appends" in c or "other" in c:
             # one frame object used several times: plain cell forms only, no cuts, no generated frame
@@ -258,7 +340,9 @@ def valid_case(c):
                     return False
         n = c["gen"]["n"] if "gen" in c else len(rows)
         for k in c.get("cuts", []):
-            if not isinstance(k, int) or isinstance(k, bool) or not (1 <= k <= n - 1):
+            # 0 and n are ways of cutting too: one batch has no rows (not through Arrow: a table without rows)
+            lo, hi = (1, n - 1) if c.get("arrow") else (0, n)
+            if not isinstance(k, int) or isinstance(k, bool) or not (lo <= k <= hi):
                 return False
         return True
     except Exception:
@@ -268,11 +352,61 @@ def valid_case(c):
 # --------------------------------------------------------------------------- implementation adaptor
 
 
-def _frame(kinds, rows, cells=None, lazy=False):
+def arrow_unit(t):
+    """(unit, tz) of an ARROW type name; unit None for date32 / date64."""
+    if not t.startswith("timestamp["):
+        return None, None
+    inner = t[len("timestamp["):-1].split(",")
+    return inner[0], (inner[1] if len(inner) > 1 else None)
+
+
+def arrow_holds(t, v):
+    """Can a column of Arrow type t hold JSON cell v exactly enough (same whole second)?"""
+    if v is None or t == "date32":
+        return True
+    sec, us = ts_parts(v)
+    if t == "date64":
+        return sec % 86400 == 0 and us == 0
+    unit, tz = arrow_unit(t)
+    if unit == "ns" and not (NS_MIN_S <= sec <= NS_MAX_S):
+        return False
+    if tz is not None and not (TS_MIN + EDGE <= sec <= TS_MAX - EDGE):
+        return False  # the cell is shown in local time, which must stay inside year 1..9999
+    return True
+
+
+def _arrow_array(t, col):
+    import pyarrow
+
+    if t == "date32":
+        return pyarrow.array(col, type=pyarrow.int32()).cast(pyarrow.date32())
+    parts = [None if v is None else ts_parts(v) for v in col]
+    if t == "date64":
+        return pyarrow.array([None if q is None else q[0] * 1000 for q in parts], type=pyarrow.int64()).cast(pyarrow.date64())
+    unit, tz = arrow_unit(t)
+    scale = {"s": lambda q: q[0], "ms": lambda q: q[0] * 1000 + q[1] // 1000, "us": lambda q: q[0] * 10**6 + q[1],
+             "ns": lambda q: (q[0] * 10**6 + q[1]) * 1000}[unit]
+    ints = pyarrow.array([None if q is None else scale(q) for q in parts], type=pyarrow.int64())
+    return ints.cast(pyarrow.timestamp(unit)).cast(pyarrow.timestamp(unit, tz=tz)) if tz else ints.cast(pyarrow.timestamp(unit))
+
+
+def _objects(kinds, rows, cells=None):
+    """The Python objects a plain (non-Arrow) frame is built from, row by row."""
+    cells = cells or [None] * len(kinds)
+    return [tuple(pyvalue(k, v, f, i) for k, v, f in zip(kinds, r, cells)) for i, r in enumerate(rows)]
+
+
+def _frame(kinds, rows, cells=None, lazy=False, arrow=None):
     from orso import DataFrame
     from orso.schema import FlatColumn, RelationSchema
     from orso.types import OrsoTypes
 
+    if arrow:
+        import pyarrow
+
+        # built from integers in the column's own unit (no calendar on the way in); cells arrive as orso makes them
+        table = pyarrow.table({"c%d" % j: _arrow_array(t, [r[j] for r in rows]) for j, t in enumerate(arrow)})
+        return DataFrame.from_arrow(table)
     cols = []
     for j, k in enumerate(kinds):
         if k == "UNTYPED":
@@ -280,11 +414,25 @@ def _frame(kinds, rows, cells=None, lazy=False):
         else:
             cols.append(FlatColumn(name="c%d" % j, type=getattr(OrsoTypes, k)))
     schema = RelationSchema(name="t", columns=cols)
-    cells = cells or [None] * len(kinds)
-    data = [tuple(pyvalue(k, v, f) for k, v, f in zip(kinds, r, cells)) for r in rows]
+    data = _objects(kinds, rows, cells)
     if lazy:  # lazily backed frame: rows come from a generator until something materialises them
         return DataFrame(rows=(r for r in data), schema=schema)
     return DataFrame(rows=data, schema=schema)
+
+
+def frame_objects(case, rows):
+    """The cell objects the profiler is handed for `rows` of a case, column by column (temporal columns only;
+    others None).  Arrow frames: read back from a frame built the same way."""
+    kinds = case["kinds"]
+    if not any(k in TEMPORAL for k in kinds):
+        return [None] * len(kinds)
+    if case.get("arrow"):
+        with warnings.catch_warnings():
+            warnings.simplefilter("ignore")
+            data = [tuple(r) for r in _frame(kinds, rows, None, False, case["arrow"])]
+    else:
+        data = _objects(kinds, rows, case.get("cells"))
+    return [[r[j] for r in data] if k in TEMPORAL else None for j, k in enumerate(kinds)]
 
 
 def _py(x):
@@ -318,12 +466,28 @@ def _column_dict(p):
     return d
 
 
-def impl_profiles(kinds, rows, cells=None, lazy=False):
-    """Profile a frame through the public entry point. Returns (table profile | None, list of column dicts)."""
+ENTRIES = ("table_profiler", "from_dataframe")  # the other public ways in, besides the DataFrame.profile property
+
+
+def profile_of(frame, entry=None):
+    """The table profile of a frame through one of the public entry points."""
+    if entry == "table_profiler":
+        from orso.profiler.profiler import table_profiler
+
+        return table_profiler(frame)
+    if entry == "from_dataframe":
+        from orso.profiler import TableProfile
+
+        return TableProfile.from_dataframe(frame)
+    return frame.profile
+
+
+def impl_profiles(kinds, rows, cells=None, lazy=False, arrow=None, entry=None):
+    """Profile a frame through a public entry point. Returns (table profile | None, list of column dicts)."""
     with warnings.catch_warnings():
         warnings.simplefilter("ignore")
         try:
-            tp = _frame(kinds, rows, cells, lazy).profile
+            tp = profile_of(_frame(kinds, rows, cells, lazy, arrow), entry)
         except Exception as e:
             return None, [{"raised": "%s: %s" % (type(e).__name__, str(e)[:120])} for _ in kinds]
         return tp, [_column_dict(tp.column("c%d" % j)) for j in range(len(kinds))]
@@ -533,6 +697,52 @@ def model_cell(kind, v):
     if kind == "BOOLEAN":
         return v
     return True
+
+
+def describe_cell(obj):
+    """The Python object of a temporal cell as the model's DateCell: what the object *is* (its calendar fields and
+    UTC offset, or its unit and tick count), not what it was built from.  None when it cannot be described."""
+    import numpy
+
+    try:
+        import pandas
+    except ImportError:  # pragma: no cover
+        pandas = None
+    if obj is None:
+        return None
+    if pandas is not None and isinstance(obj, pandas.Timestamp):
+        a = obj.asm8  # the UTC instant in the Timestamp's own unit
+        unit, step = numpy.datetime_data(a)
+        if step != 1:
+            return False
+        return ["p", unit, int(a.view("i8"))]
+    if isinstance(obj, numpy.datetime64):
+        unit, step = numpy.datetime_data(obj)
+        if step != 1 or unit not in ("W", "D", "h", "m", "s", "ms", "us", "ns"):
+            return False
+        return ["u", unit, int(obj.view("i8"))]
+    if isinstance(obj, datetime.datetime):
+        off = obj.utcoffset()
+        offmin = 0
+        if off is not None:
+            if off.microseconds or off.seconds % 60:
+                return False  # numpy drops the seconds of an offset; not generated
+            offmin = off.days * 1440 + off.seconds // 60
+        return ["c", obj.year, obj.month, obj.day, obj.hour, obj.minute, obj.second, obj.microsecond, offmin]
+    if isinstance(obj, datetime.date):
+        return ["c", obj.year, obj.month, obj.day, 0, 0, 0, 0, 0]
+    return False
+
+
+def model_cells_line(kind, vals, objs):
+    """DateProfiler from the cell objects: (line, None) or (None, reason)."""
+    desc = [describe_cell(o) for o in objs]
+    if any(d is False for d in desc) or len(desc) != len(vals) or any((d is None) != (v is None) for d, v in zip(desc, vals)):
+        return None, "a cell object the model has no description for"
+    table = _hash_table(kind, vals)
+    if table is None:
+        return None, "hash not observable"
+    return "C15 profilecells " + wire.line(desc, table), None
 
 
 def model_profile_line(kind, vals):
@@ -747,7 +957,9 @@ def check_case(case):
     rows = expand(case)
     cells = cell_forms(case)
     lazy = bool(case.get("lazy"))
-    tp, cols = impl_profiles(kinds, rows, cells, lazy)
+    arrow = case.get("arrow")
+    entry = case.get("entry")
+    tp, cols = impl_profiles(kinds, rows, cells, lazy, arrow, entry)
     res = {"cols": cols, "adds": [], "failure": None, "views": [("", rows, cols)]}
     for j, k in enumerate(kinds):
         vals = [r[j] for r in rows]
@@ -767,8 +979,8 @@ def check_case(case):
         with warnings.catch_warnings():
             warnings.simplefilter("ignore")
             try:
-                pa = _frame(kinds, rows[:cut], cells, lazy).profile
-                pb = _frame(kinds, rows[cut:], cells, lazy).profile
+                pa = profile_of(_frame(kinds, rows[:cut], cells, lazy, arrow), entry)
+                pb = profile_of(_frame(kinds, rows[cut:], cells, lazy, arrow), entry)
                 ps = pa + pb
                 sums = [_column_dict(ps.column("c%d" % j)) for j in range(len(kinds))]
                 parts = [[_column_dict(pa.column("c%d" % j)), _column_dict(pb.column("c%d" % j))] for j in range(len(kinds))]
@@ -809,6 +1021,8 @@ def shrink_case(case, what):
             c2["kinds"] = [c["kinds"][j]]
             if "cells" in c:
                 c2["cells"] = [c["cells"][j]]
+            if "arrow" in c:
+                c2["arrow"] = [c["arrow"][j]]
             if "gen" in c:
                 c2["gen"] = dict(c["gen"], pattern=[[r[j]] for r in c["gen"]["pattern"]])
             else:
@@ -836,6 +1050,22 @@ def shrink_case(case, what):
             if still(c2):
                 c = c2
                 break
+    if what == "additive" and "gen" not in c and "appends" not in c and c.get("cuts") and 2 < len(c["rows"]) <= 60:
+        # a sum that differs from the whole is usually about one row on either side of the cut
+        found = None
+        for cut in c["cuts"]:
+            for i in range(0, cut):
+                for j in range(cut, len(c["rows"])):
+                    c2 = dict(c, rows=[c["rows"][i], c["rows"][j]], cuts=[1])
+                    if still(c2):
+                        found = c2
+                        break
+                if found:
+                    break
+            if found:
+                break
+        if found:
+            c = found
     if c.get("cuts") and what != "additive" and what != "add-raised":
         c2 = {k: v for k, v in c.items() if k != "cuts"}
         if still(c2):
@@ -846,12 +1076,14 @@ def shrink_case(case, what):
             if still(c2):
                 c = c2
                 break
-    for drop in ("lazy", "cells", "other"):
+    for drop in ("lazy", "cells", "other", "arrow", "entry"):
         if drop in c:
             c2 = {k: v for k, v in c.items() if k != drop}
             if still(c2):
                 c = c2
-    c = shrink(c, still, budget=250)
+    # every probe of a frame above the batch size costs a full profile of 25000+ rows: such a failure is about
+    # the size (it was already tried on a few rows of the pattern above), so only a few structural steps
+    c = shrink(c, still, budget=250 if len(expand(c)) <= 2000 else 30)
     if c.get("cuts") == []:
         c = {k: v for k, v in c.items() if k != "cuts"}
     return c
@@ -886,15 +1118,32 @@ def evaluate(ctx, cases):
         ctx.case(c, nontrivial)
         ctx.hit("rows:%s" % (n if n <= 5 else "6-31" if n < 32 else "32-99" if n < 100 else "100-999" if n < 1000 else ">=1000"))
         ctx.hit("cuts:%d" % min(len(c.get("cuts", [])), 9))
+        if any(k in (0, n) for k in c.get("cuts", [])):
+            ctx.hit("cuts:one-batch-without-rows")
         ctx.hit("frame:lazy" if c.get("lazy") else "frame:eager")
+        ctx.hit("entry:" + (c.get("entry") or "DataFrame.profile"))
         if "appends" in c:
             ctx.hit("sequence:uses-of-one-frame:%d" % min(len(c["appends"]) + 1, 5))
             ctx.hit("sequence:second-frame-between" if c.get("other") else "sequence:uninterrupted")
             if any(len(chunk) == 0 for chunk in c["appends"]):
                 ctx.hit("sequence:profiled-twice-unchanged")
-        for k, f in zip(kinds, cell_forms(c)):
+        for j, (k, f) in enumerate(zip(kinds, cell_forms(c))):
             if k in TEMPORAL:
-                ctx.hit("cell:%s:%s" % (k, f or ("naive" if k == "TIMESTAMP" else "date")))
+                if c.get("arrow"):
+                    ctx.hit("cell:%s:arrow:%s" % (k, c["arrow"][j]))
+                else:
+                    ctx.hit("cell:%s:%s" % (k, f or ("naive" if k == "TIMESTAMP" else "date")))
+                secs = [exact(k, r[j]) for r in rows if r[j] is not None]
+                if any(x < NS_MIN_S for x in secs):
+                    ctx.hit("temporal-range:%s:before 1677-09-21 (below 64-bit nanoseconds)" % k)
+                if any(x > NS_MAX_S for x in secs):
+                    ctx.hit("temporal-range:%s:after 2262-04-11 (above 64-bit nanoseconds)" % k)
+                if any(NS_MIN_S <= x <= NS_MAX_S for x in secs):
+                    ctx.hit("temporal-range:%s:1677..2262" % k)
+                if any(x in (TS_MIN, TS_MAX, DATE_MIN * 86400, DATE_MAX * 86400) for x in secs):
+                    ctx.hit("temporal-range:%s:first or last day of year 1..9999" % k)
+                if any(isinstance(r[j], list) for r in rows):
+                    ctx.hit("temporal:sub-second" + (":before-1970" if any(isinstance(r[j], list) and r[j][0] < 0 for r in rows) else ""))
         for j, k in enumerate(kinds):
             vals = [r[j] for r in rows]
             nn = [v for v in vals if v is not None]
@@ -934,17 +1183,26 @@ def evaluate(ctx, cases):
             continue
         # model lines: one per judged (frame state, column), one per cut and column, one per generated (batched) frame
         for vi, (label, vrows, vcols) in enumerate(res["views"]):
+            vobjs = None
             for j, k in enumerate(kinds):
                 vals = [r[j] for r in vrows]
                 if non_finite(k, vals):
                     ctx.hit("model-skipped:non-finite")
                     continue
-                line, why = model_profile_line(k, vals)
+                line, why = None, None
+                if k in TEMPORAL and len(vals) <= 2000:
+                    if vobjs is None:
+                        vobjs = frame_objects(c, vrows)
+                    line, why = model_cells_line(k, vals, vobjs[j])
+                    ctx.hit("model:temporal-from-cell-objects" if line else "model:temporal-from-seconds")
+                cells_line = line is not None
+                if line is None:
+                    line, why = model_profile_line(k, vals)
                 if line is None:
                     ctx.hit("model-skipped:hash-unobservable")
                     continue
                 lines.append(line)
-                index.append((ci, "col", (vi, j)))
+                index.append((ci, "cellscol" if cells_line else "col", (vi, j)))
                 if len(vals) > consts()["batch"] or "gen" in c:
                     lines.append("C15 batched " + wire.line(MKIND[k], None, [model_cell(k, v) for v in vals]))
                     index.append((ci, "batched", j))
@@ -954,10 +1212,14 @@ def evaluate(ctx, cases):
                         index.append((ci, "batchedfull", j))
         for ai, (cut, parts, sums) in enumerate(res["adds"]):
             for j, k in enumerate(kinds):
-                if parts[j][0].get("absent") or parts[j][1].get("absent"):
+                absent = parts[j][0].get("absent") or parts[j][1].get("absent")
+                if absent and cut not in (0, len(rows)):
                     continue
-                lines.append("C15 add " + wire.line(core_of(parts[j][0]), core_of(parts[j][1])))
-                index.append((ci, "add", (ai, j)))
+                if not absent:
+                    lines.append("C15 add " + wire.line(core_of(parts[j][0]), core_of(parts[j][1])))
+                    index.append((ci, "add", (ai, j)))
+                else:
+                    ctx.hit("sum-with-a-batch-without-rows")  # that side has no column profile: the stand-in of TableProfile.__add__
                 va, vb = [r[j] for r in rows[:cut]], [r[j] for r in rows[cut:]]
                 if not non_finite(k, va + vb):
                     sl = model_sum_line(k, va, vb)
@@ -972,6 +1234,33 @@ def evaluate(ctx, cases):
             raise InfraError("model rejected a %s line of case %r: %r" % (tag, c, mo))
         out = wire.dec_all(mo[3:])
         kinds = c["kinds"]
+        if tag == "cellscol":
+            # DateProfiler from the cell objects: first the conversion to epoch seconds, cell by cell
+            vi, j = payload
+            label, vrows, vcols = res["views"][vi]
+            k = kinds[j]
+            vals = [r[j] for r in vrows]
+            small = c
+            if "appends" not in c and len(vals) <= 400:
+                small = {"kinds": [k], "rows": [[v] for v in vals]}
+                for key in ("cells", "arrow"):
+                    if c.get(key):
+                        small[key] = [c[key][j]]
+            want = [None if v is None else exact(k, v) for v in vals]
+            bad = None
+            if out[0] == "raised":
+                bad = "raises %s where the implementation profiles the column" % out[1]
+            elif out[1] != want:
+                i = next(i for i, (a, b) in enumerate(zip(out[1], want)) if a != b)
+                bad = "converts cell %d (%r) to %r, its epoch seconds are %r" % (i, vals[i], out[1][i], want[i])
+            if bad is not None:
+                if model_is_pinned():
+                    raise InfraError("the model of the unchanged DateProfiler %s: %s column %r" % (bad, k, vals[:50]))
+                ctx.disagree(small, vcols[j], {"seconds": None if out[0] == "raised" else out[1][:50]},
+                             what=label + "the model assembled from the changed source " + bad)
+                continue
+            out = out[2:]
+            tag = "col"
         if tag == "col":
             vi, j = payload
             label, vrows, vcols = res["views"][vi]
@@ -992,6 +1281,8 @@ def evaluate(ctx, cases):
                     small = {"kinds": [k], "rows": [[v] for v in vals]}
                     if cell_forms(c)[j]:
                         small["cells"] = [cell_forms(c)[j]]
+                    if c.get("arrow"):
+                        small["arrow"] = [c["arrow"][j]]
                     if c.get("lazy"):
                         small["lazy"] = True
                 ctx.disagree(small if len(vals) <= 400 else c, vcols[j], _plain(m), what=diff)
@@ -999,7 +1290,10 @@ def evaluate(ctx, cases):
             ai, j = payload
             cut, parts, sums = res["adds"][ai]
             rows = expand(c)
-            diff = compare_sum(kinds[j], sums[j], model_dict(kinds[j], out), [[r[j] for r in rows[:cut]], [r[j] for r in rows[cut:]]])
+            # each side is the profile DataFrame.profile gives it: a fold over its batches when it is above the batch size
+            bsz = consts()["batch"]
+            sides = [[r[j] for r in rows[:cut]], [r[j] for r in rows[cut:]]]
+            diff = compare_sum(kinds[j], sums[j], model_dict(kinds[j], out), [sd[i: i + bsz] for sd in sides for i in range(0, len(sd), bsz)])
             ctx.hit("sum-compared-in-full")
             if diff is not None:
                 ctx.disagree(c, {k2: v for k2, v in sums[j].items() if k2 != "hist"}, _plain(model_dict(kinds[j], out)),
@@ -1072,12 +1366,29 @@ SMALL = {
     "DECIMAL": ["0.00", "-1.5", "2.25"],
     "VARCHAR": ["", "ab", "b"],
     "BOOLEAN": [True, False],
-    "DATE": [0, -1, 19000],
-    "TIMESTAMP": [0, -1, 1700000000],
+    "DATE": [0, -1, DATE_MAX],
+    "TIMESTAMP": [0, -1, TS_MIN],
     "ARRAY": [[], [1, 2]],
     "STRUCT": [{"a": 1}, {}],
     "UNTYPED": [0, "a", 1.5],
 }
+
+
+def _days(y, m, d):
+    return (datetime.date(y, m, d) - datetime.date(1970, 1, 1)).days
+
+
+# the whole range the statement allows (year 1..9999), the ends of what 64-bit nanoseconds can hold
+# (1677-09-21T00:12:43.145224192 .. 2262-04-11T23:47:16.854775807), the epoch, leap days and century years
+DATE_POOL = [DATE_MIN, DATE_MIN + 1, _days(1600, 1, 1), _days(1600, 2, 29), _days(1677, 9, 20), _days(1677, 9, 21),
+             _days(1677, 9, 22), _days(1900, 2, 28), _days(1900, 3, 1), _days(1969, 12, 31), 0, 1, _days(2000, 2, 29),
+             _days(2100, 2, 28), _days(2100, 3, 1), _days(2262, 4, 11), _days(2262, 4, 12), _days(2300, 1, 1),
+             _days(9999, 12, 30), DATE_MAX]
+TS_POOL = ([d * 86400 for d in DATE_POOL] + [d * 86400 + 86399 for d in (DATE_MIN, _days(1969, 12, 31), DATE_MAX)]
+           + [TS_MIN + 1, TS_MAX - 1, NS_MIN_S - 1, NS_MIN_S, NS_MAX_S, NS_MAX_S + 1, NS_MAX_S + 2]
+           + [[TS_MAX, 999999], [TS_MIN, 1], [-1, 999999], [-1, 1], [0, 500000], [0, 1], [NS_MAX_S + 1, 854775],
+              [NS_MAX_S + 1, 854776], [NS_MIN_S - 1, 145225], [NS_MIN_S - 1, 145224], [_days(2300, 1, 1) * 86400, 250000],
+              [_days(1600, 1, 1) * 86400 + 45001, 999999]])
 
 
 def domain(rng, kind, size):
@@ -1110,16 +1421,22 @@ def domain(rng, kind, size):
         elif kind == "BOOLEAN":
             v = rng.random() < 0.5
         elif kind == "DATE":
-            v = rng.choice([0, -1, 1]) if rng.random() < 0.3 else rng.randint(-40000, 40000)
+            r = rng.random()
+            v = (rng.choice([0, -1, 1]) if r < 0.25 else rng.choice(DATE_POOL) if r < 0.5
+                 else rng.randint(DATE_MIN, DATE_MAX) if r < 0.65 else rng.randint(-40000, 40000))
         elif kind == "TIMESTAMP":
-            v = rng.choice([0, -1, 1]) if rng.random() < 0.3 else rng.randint(-2 * 10**9, 4 * 10**9)
+            r = rng.random()
+            v = (rng.choice([0, -1, 1]) if r < 0.25 else rng.choice(TS_POOL) if r < 0.5
+                 else rng.randint(TS_MIN, TS_MAX) if r < 0.65 else rng.randint(-2 * 10**9, 4 * 10**9))
+            if isinstance(v, int) and rng.random() < 0.15:
+                v = [v, rng.choice([1, 500000, 999999, rng.randint(1, 999999)])]
         elif kind == "ARRAY":
             v = [rng.randint(0, 3) for _ in range(rng.randint(0, 3))]
         elif kind == "STRUCT":
             v = {k: rng.randint(0, 3) for k in rng.sample(["a", "b", "c"], rng.randint(0, 2))}
         else:
             v = rng.choice([rng.randint(-3, 3), rng.choice(["a", "b", ""]), rng.randint(-8, 8) / 4.0, rng.random() < 0.5, [1]])
-        key = json.dumps(v, sort_keys=True) if kind not in NUMERIC else str(exact(kind, v))
+        key = json.dumps(v, sort_keys=True) if kind not in NUMERIC + TEMPORAL else str(exact(kind, v))
         if key in seen:
             continue
         seen.add(key)
@@ -1175,24 +1492,28 @@ def random_case(ctx, big=False):
     cols = [random_column(rng, k, n) for k in kinds]
     rows = [[col[i] for col in cols] for i in range(n)]
     c = {"kinds": kinds, "rows": rows}
-    if any(k in TEMPORAL for k in kinds) and rng.random() < 0.6:
-        cells = []
+    if all(k in TEMPORAL for k in kinds) and rng.random() < 0.3:
+        # the frame arrives through Arrow: the widest type that holds every cell of the column
+        arrow = []
         for j, k in enumerate(kinds):
-            f = rng.choice(FORMS[k]) if k in TEMPORAL else None
-            if f and f.startswith("pandas"):
-                scale = 86400 if k == "DATE" else 1
-                if any(r[j] is not None and abs(r[j] * scale) > PANDAS_RANGE for r in rows):
-                    f = None
-            cells.append(f)
+            fits = [t for t in ARROW[k] if all(arrow_holds(t, r[j]) for r in rows)]
+            arrow.append(rng.choice(fits))
+        c["arrow"] = arrow
+    elif any(k in TEMPORAL for k in kinds) and rng.random() < 0.7:
+        cells = [rng.choice(RANDOM_FORMS[k]) if k in TEMPORAL else None for k in kinds]
         if any(cells):
             c["cells"] = cells
     if rng.random() < 0.15:
         c["lazy"] = True
+    if rng.random() < 0.12:
+        c["entry"] = rng.choice(ENTRIES)
     if n >= 2 and rng.random() < 0.6:
         if n <= 6 and rng.random() < 0.5:
             c["cuts"] = list(range(1, n))
         else:
             c["cuts"] = sorted(set(rng.randint(1, n - 1) for _ in range(rng.randint(1, 3))))
+    if "arrow" not in c and rng.random() < 0.15:
+        c["cuts"] = sorted(set(c.get("cuts", []) + [rng.choice([0, n])]))  # one batch without rows
     return c
 
 
@@ -1331,13 +1652,18 @@ def edge_cases():
         out.append({"kinds": [k], "rows": [[None], [a]], "cuts": [1]})
         out.append({"kinds": [k], "rows": [[a], [None], [None]], "cuts": [1, 2]})
         out.append({"kinds": [k], "rows": [[a]]})
+    # a batch without rows on either side (its table profile has no columns at all)
+    for k in KINDS:
+        a = SMALL[k]
+        out.append({"kinds": [k], "rows": [[a[0]], [None], [a[-1]]], "cuts": [0, 3]})
+    out.append({"kinds": ["INTEGER", "VARCHAR", "DATE"], "rows": [[1, "a", 0], [None, None, None], [3, "b", DATE_MAX]], "cuts": [0, 3], "lazy": True})
     # text keys: short strings, shared 8-byte and 64-character prefixes, non-ASCII
     out.append({"kinds": ["VARCHAR"], "rows": [["ab"], ["b"]], "cuts": [1]})
     out.append({"kinds": ["VARCHAR"], "rows": [["aé"], ["b"], [""]], "cuts": [1, 2]})
     out.append({"kinds": ["VARCHAR"], "rows": [["x" * 64 + "a"], ["x" * 64 + "b"], ["x" * 64 + "b"], ["x" * 63]], "cuts": [2]})
     out.append({"kinds": ["VARCHAR"], "rows": [["abcdefgh"], ["abcdefghi"], ["abcdefgz"], ["\U0001f600"], ["日本語"]], "cuts": [2, 3]})
     # every temporal cell form, null first and not first (the two branches of DateProfiler), across cuts
-    for k, fs in FORMS.items():
+    for k, fs in RANDOM_FORMS.items():
         vals = [0, -1, 19000] if k == "DATE" else [1, -1, 1700000000]
         for f in fs:
             out.append({"kinds": [k], "cells": [f], "rows": [[vals[0]], [None], [vals[1]], [vals[2]]], "cuts": [1, 2, 3]})
@@ -1345,6 +1671,9 @@ def edge_cases():
     # DECIMAL with nulls anywhere; lazily backed frames
     out.append({"kinds": ["DECIMAL"], "rows": [[None], ["-2.50"], ["0"], [None], ["7.125"], ["0.0"]], "cuts": [1, 2, 3, 4, 5]})
     out.append({"kinds": ["INTEGER", "VARCHAR", "TIMESTAMP"], "lazy": True, "rows": [[3, "b", 5], [None, None, None], [0, "a", -5], [-2, "", 0]], "cuts": [1, 2, 3]})
+    # the other public entry points
+    for e in ENTRIES:
+        out.append({"kinds": ["INTEGER", "VARCHAR", "DATE"], "entry": e, "rows": [[3, "b", DATE_MAX], [None, None, None], [0, "a", -5], [-2, "", 0], [0, "a", -5]], "cuts": [1, 3]})
     # a frame one row above the batch size whose last batch is a single null row (histogram of the sum)
     b = consts()["batch"]
     pat = [[5], [5], [3], [0], [0], [-2], [7]]
@@ -1361,14 +1690,42 @@ def edge_cases():
     return out
 
 
+def temporal_range_cases():
+    """Dates and instants over the whole range the statement allows (year 1..9999) in every cell form and through
+    every Arrow type: alone (a wrapped conversion shows on one cell), together, null first and not first (the two
+    ways DateProfiler picks its path), across cuts."""
+    out = []
+    for k in TEMPORAL:
+        pool = DATE_POOL if k == "DATE" else TS_POOL
+        far = [pool[0], pool[-1]] if k == "DATE" else [TS_MIN, TS_MAX, [TS_MAX, 999999], [TS_MIN, 1]]
+        for f in RANDOM_FORMS[k]:
+            out.append({"kinds": [k], "cells": [f], "rows": [[v] for v in pool], "cuts": [1, len(pool) // 2]})
+            out.append({"kinds": [k], "cells": [f], "rows": [[None]] + [[v] for v in reversed(pool)] + [[pool[0]]]})
+            for v in pool:
+                out.append({"kinds": [k], "cells": [f], "rows": [[v]]})
+            for v in far:
+                out.append({"kinds": [k], "cells": [f], "rows": [[0], [v], [None]], "cuts": [1]})
+        for t in ARROW[k]:
+            fits = [v for v in pool if arrow_holds(t, v)]
+            out.append({"kinds": [k], "arrow": [t], "rows": [[fits[0]], [None]] + [[v] for v in fits[1:]], "cuts": [1, 2]})
+            out.append({"kinds": [k], "arrow": [t], "rows": [[None]] + [[v] for v in reversed(fits)]})
+            for v in (fits[0], fits[-1], fits[len(fits) // 2]):
+                out.append({"kinds": [k], "arrow": [t], "rows": [[v]]})
+    out.append({"kinds": ["DATE", "TIMESTAMP"], "arrow": ["date32", "timestamp[us]"],
+                "rows": [[DATE_MAX, [TS_MAX, 999999]], [None, None], [DATE_MIN, TS_MIN], [0, -1]], "cuts": [1, 2, 3]})
+    # one frame object: an ordinary date, then the customary "end of time" and a date before 1677 arrive by append
+    out.append({"kinds": ["DATE", "TIMESTAMP"], "rows": [[18000, 1600000000]],
+                "appends": [[[DATE_MAX, TS_MAX]], [[_days(1600, 1, 1), [TS_MIN, 1]], [None, None]]]})
+    return out
+
+
 def exhaustive_cases(nmax):
     for k in KINDS:
         alpha = [None] + SMALL[k]
         for n in range(1, nmax + 1):
             for combo in itertools.product(alpha, repeat=n):
                 c = {"kinds": [k], "rows": [[v] for v in combo]}
-                if n >= 2:
-                    c["cuts"] = list(range(1, n))
+                c["cuts"] = list(range(0, n + 1))  # every way of cutting, a batch without rows included
                 yield c
 
 
@@ -1381,6 +1738,9 @@ KNOWN_STREAM = [
     {"kinds": ["DOUBLE"], "rows": [[1.5], [float("nan")], [None]]},
     {"kinds": ["DOUBLE"], "rows": [[1e-07], [0.25]]},
     {"kinds": ["DOUBLE"], "rows": [[0.1234567], [0.1234568], [0.1234568]]},
+    {"kinds": ["TIMESTAMP"], "cells": ["aware_lmt"], "rows": [[-2195899761], [0], [None]]},
+    {"kinds": ["TIMESTAMP"], "cells": ["aware_lmt"], "rows": [[-2840079838], [-2840079838], [5]], "cuts": [1]},
+    {"kinds": ["TIMESTAMP"], "cells": ["aware_lmt"], "rows": [[21], [0], [0]]},
 ]
 
 
@@ -1394,12 +1754,28 @@ def run(ctx):
         "doubles that are multiples of 1/64 or whole, decimals with at most 6 fractional digits; NaN/inf, integers beyond 2**53, "
         "-2**63, narrow ranges of large integers, doubles needing more than six decimals and the frequencies of frames above the "
         "batch size are open findings (K01-K06) exercised by their own stream",
-        "text values are profiled by their first 64 characters (SIXTY_FOUR_BYTES); instants are whole seconds",
+        "text values are profiled by their first 64 characters (SIXTY_FOUR_BYTES); an instant with a sub-second part is the whole seconds "
+        "elapsed since the epoch (floor, also before 1970); tz-aware cells use whole-minute UTC offsets (a seconds part is open finding K07)",
     ])
+    import time
+
+    stage = {}
+    t0 = [time.time()]
+
+    def lap(name):
+        now = time.time()
+        stage[name] = round(stage.get(name, 0) + now - t0[0], 1)
+        t0[0] = now
+
     evaluate(ctx, edge_cases())
+    lap("edge")
+    evaluate(ctx, temporal_range_cases())
+    lap("temporal-range")
     evaluate(ctx, sequence_edge_cases())
+    lap("sequence-edge")
     cc = collision_cases()
     evaluate(ctx, cc)
+    lap("collisions")
     ctx.note("hash_collisions", {k: "%d of %d stored groups still collide under the implementation's hash" % (len(live_groups(k)), len(load_collisions().get(k, [])))
                                  for k in ("VARCHAR", "INTEGER", "DOUBLE", "DECIMAL", "TIMESTAMP", "DATE")})
     nmax = ctx.scale(3, 5)
@@ -1413,18 +1789,22 @@ def run(ctx):
             batch = []
     evaluate(ctx, batch)
     total += len(batch)
+    lap("exhaustive")
     ctx.note("exhaustive_scope", "every column of 1..%d rows over {null, 2-3 values} for each of the %d kinds, with every cut (%d frames); then random"
              % (nmax, len(KINDS), total))
     evaluate(ctx, [dict(c) for c in KNOWN_STREAM])
     nbig = ctx.scale(2, 12)
     evaluate(ctx, [big_case(ctx, i) for i in range(nbig)])
+    lap("known+big")
     n_random = ctx.scale(2500, 30000)
     done = 0
     while done < n_random and ctx.time_left() > ctx.scale(12, 60):
         k = min(500, n_random - done)
         evaluate(ctx, [random_sequence(ctx) if i % 6 == 5 else random_case(ctx) for i in range(k)])
         done += k
+    lap("random")
     ctx.note("random_cases", done)
+    ctx.note("stage_seconds", stage)
 
 
 def intensify(ctx):
@@ -1620,7 +2000,46 @@ def k_six_decimals(case, failure):
     return all(c <= low for (_, c) in unlisted)
 
 
+def k_subminute_offset(case, failure):
+    """K07: tz-aware datetimes whose UTC offset has a seconds part — numpy (which DateProfiler hands them to) drops
+    the seconds of the offset, so the cell is reported `offset mod 60` seconds away from its instant.  The judged
+    profile (or sum) must be the exact profile of the column shifted that way."""
+    det = failure.get("detail") or {}
+    j = det.get("col")
+    if "appends" in case or "arrow" in case or not case.get("cells"):
+        return False
+    if j is None:
+        j = 0 if len(case["kinds"]) == 1 else None
+    if j is None or case["kinds"][j] != "TIMESTAMP" or case["cells"][j] != "aware_lmt":
+        return False
+    rows = expand(case)
+    if len(rows) > consts()["batch"] or det.get("what") not in ("extremes", "mfv", "cardinality", "additive"):
+        return False
+
+    def shifted(v):
+        if v is None:
+            return None
+        sec, us = ts_parts(v)
+        off = lmt_offset(sec)
+        if off is None:
+            return sec
+        rem = off - 60 * int(off / 60)  # the seconds numpy drops (toward zero)
+        return sec + rem
+
+    vals = [r[j] for r in rows]
+    if not any(v is not None and lmt_offset(ts_parts(v)[0]) is not None for v in vals):
+        return False
+    if det.get("what") == "additive":
+        # both the whole profile and the sum are profiles of the shifted column: the sum's core must be that
+        m = re.search(r"has count/missing/min/max (\[.*?\]), the profile", failure.get("clause", ""))
+        sh = [shifted(v) for v in vals if v is not None]
+        want = [len(vals), len(vals) - len(sh), min(sh) if sh else None, max(sh) if sh else None]
+        return bool(m) and m.group(1) == repr(want)
+    return _explained("TIMESTAMP", [shifted(v) for v in vals], det.get("got"))
+
+
 KNOWN_PREDICATES = {
+    "subminute_utc_offset": k_subminute_offset,
     "int_beyond_2_53": k_int_beyond_2_53,
     "histogram_bins_narrow_range": k_histogram_bins,
     "batched_frequencies": k_batched_frequencies,
